@@ -186,6 +186,17 @@ def rule_split(ctx, F, rule="R1", ST=ST, SK=SK, KF="mina_core::timeline::Keyfram
                     empty = v
                 if t[0] == "bin" and t[1] == "Lt" and intervals.fval(t[2]) == 0.0 and t[3] == ("field", kf, kf_time["f32"]):
                     pos_gt0 = v
+            if empty is None:
+                # emptiness may also be established through first() / last() of the frames collected so far
+                for (t, v, s) in p.conds:
+                    if t[0] == "discr" and t[1][0] == "call" and t[1][1].rsplit("::", 1)[-1] in ("first", "last") and v in (0, 1):
+                        empty = 1 - v
+            # fail closed: there must always be a frame at 0 %, so every iteration has to find out whether a frame exists
+            # already and, if none does, whether this keyframe lies after 0 %
+            ctx.ob(rule, lab + "/start-frame-decided", empty in (0, 1) and (empty == 0 or pos_gt0 in (0, 1)),
+                   "every iteration must decide whether a frame exists yet and, if not, whether this keyframe is after 0%% "
+                   "(otherwise the synthetic 0%% frame can be missing): empty=%s pos>0=%s" % (empty, pos_gt0), body["span"],
+                   trace_of(p), what="start-frame-not-decided")
             if synth:
                 e, f = synth[0]
                 ok = len(synth) == 1 and empty == 1 and pos_gt0 == 1 and f[fl["easing"]] == cur_easing_in
